@@ -27,6 +27,7 @@ def keep_in_corpus(pid, v, name):
     out = None
     if ('funs' in sc or 'contracts' in sc) and pid in ('C01', 'C02', 'C03', 'C04', 'C06', 'C08', 'C09', 'C10', 'C12', 'C14'): out = sc      # families that run corpus/<pid> first
     elif pid == 'C05' and 'invs' in sc: out = sc
+    elif pid == 'C11' and 'classes' in sc: out = sc
     elif pid == 'C18' and 'module' in sc: out = sc['module']
     elif pid == 'C19' and 'src' in sc: out = {k: sc[k] for k in ('src', 'types', 'quote') if k in sc}
     elif pid == 'C17' and 'src' in sc and 'item' in sc: out = {'src': sc['src'], 'items': [sc['item']], 'helpers': ''}
